@@ -10,6 +10,7 @@ From WG Require Import BV.Bits.
 From WG Require Import Par.Splice.
 From WG Require Import Flags.Props.
 From WG Require Import Split.Model.
+From WG Require Import Split.ArcList.
 
 Extraction Language OCaml.
 
@@ -82,4 +83,7 @@ Extraction "model.ml"
   dcf_of
   dcf_cuts
   cumul
+  al_skip
+  al_collect
+  graph_of_arcs
 .
